@@ -268,3 +268,12 @@ def dict_eq(a, b):
 
 def dict_eq_except(a, b, k):
     return {x: v for x, v in a.items() if x != k} == {x: v for x, v in b.items() if x != k}
+
+
+def schema_ok(instance, defaults, kwargs):
+    import jsonschema
+    try:
+        jsonschema.validate(instance, **{**defaults, **kwargs})
+        return True
+    except jsonschema.ValidationError:
+        return False
